@@ -534,6 +534,52 @@ def c15e(chk):
     res = rules_panic.definite_failures(chk, w)
     chk.ob("C15.e", "Header::write/padding-has-no-must-fail-path", not res, w.loc(),
            "constant propagation along single paths: no assert/index may be implied to fail on a feasible path (%s)" % ("; ".join(res) or "none found"))
+    # the padding: pad = 0 if len % ALIGN == 0 else ALIGN - len % ALIGN (with len including the terminating newline), so that the data
+    # start at a multiple of ALIGN (and the assert_eq! after it cannot fire)
+    rems = [(p_[0], rv) for _, _, p_, rv, _ in w.assigns() if rv["k"] == "binop" and rv["op"].startswith("Rem") and (an.const_of(w, rv["r"]) or {}).get("val") == 64]
+    pad_ok = False
+    why_pad = "len % ALIGN not found"
+    for rl, rrv in rems:
+        rl_users = {l for l in range(len(w.locals)) if w.copy_root(l) == rl} | {rl}
+        for sb, st in w.switches():
+            ss = an.switch_subject(w, sb)
+            d_ = w.single_def(ss["root"]) if ss["kind"] == "value" and ss["root"] is not None else None
+            if not (d_ and d_[0] == "assign" and d_[3]["k"] == "binop" and d_[3]["op"] in ("Eq", "Ne")):
+                continue
+            sides = [op_local(d_[3]["l"]), op_local(d_[3]["r"])]
+            cs = [const_val(d_[3]["l"]), const_val(d_[3]["r"])]
+            if not (any(x is not None and w.copy_root(x) == rl for x in sides) and 0 in cs):
+                continue
+            zero_t, nonzero_t = (st["otherwise"], an.edge_target(st, 0)) if d_[3]["op"] == "Eq" else (an.edge_target(st, 0), st["otherwise"])
+            # the value that is merged from the two arms
+            for pl in range(len(w.locals)):
+                ds = w.defs.get(pl, [])
+                if len(ds) != 2 or not all(x[0] == "assign" for x in ds):
+                    continue
+                zs = [x for x in ds if x[3]["k"] == "use" and const_val(x[3]["op"]) == 0 and an.dominated_by_edge(w, sb, zero_t, x[1])]
+                nz = []
+                for x in ds:
+                    bo = None
+                    if x[3]["k"] == "binop":
+                        bo = x[3]
+                    elif x[3]["k"] == "use":
+                        bo = an.binop_def(w, x[3]["op"])
+                    if bo and bo["op"].startswith("Sub") and (an.const_of(w, bo["l"]) or {}).get("val") == 64 and op_local(bo["r"]) is not None and w.copy_root(op_local(bo["r"])) == rl and an.dominated_by_edge(w, sb, nonzero_t, x[1]):
+                        nz.append(x)
+                if len(zs) == 1 and len(nz) == 1:
+                    pad_ok = True
+                    why_pad = "pad = 0 on the `len % 64 == 0` edge, 64 - len % 64 on the other"
+        if not pad_ok:
+            # the same number without a branch: (64 - len % 64) % 64
+            for _, _, p2_, rv2, _ in w.assigns():
+                if rv2["k"] == "binop" and rv2["op"].startswith("Rem") and (an.const_of(w, rv2["r"]) or {}).get("val") == 64:
+                    bo = an.binop_def(w, rv2["l"])
+                    if bo and bo["op"].startswith("Sub") and (an.const_of(w, bo["l"]) or {}).get("val") == 64 and op_local(bo["r"]) is not None and w.copy_root(op_local(bo["r"])) == rl:
+                        pad_ok = True
+                        why_pad = "pad = (64 - len % 64) % 64"
+        if not pad_ok:
+            why_pad = "the value merged from the two arms of `len % 64 == 0` is not (0, 64 - len % 64)"
+    chk.ob("C15.e", "Header::write/padding=(-len) mod 64", pad_ok, w.loc(), "the number of padding spaces makes the header length a multiple of 64: %s" % why_pad)
     # a newline is written on every path: the store of b'\n' post-dominates the padding allocation or the newline is part of the length
     nl = []
     for b, i, p, rv, s in w.assigns():
